@@ -32,7 +32,7 @@ fn settings_with(eol: &str, exec: &str) -> UserSettings {
 
 pub fn run(cfg: &Cfg, out: &mut Out) {
     let mut r = cfg.rng(24);
-    let workspaces = cfg.n(70, 700);
+    let workspaces = cfg.n(70, 400);
     for _ in 0..workspaces {
         let mut env = Env::new();
         let conflicts = r.chance(2, 3);
@@ -53,7 +53,12 @@ pub fn run(cfg: &Cfg, out: &mut Out) {
             let sparse = res.pre.sparse.clone();
             let (disk, _states, stats) = match &res.result {
                 Ok(x) => x,
-                Err(e) => { out.oracle_fail(&format!("checkout:{e}"), format!("check_out failed: {e}; new tree {}", show_tree(&res.new_tree))); break; }
+                Err(_) if res.known_unsorted => {
+                    ofail(out, "checkout:panic:file-states-pushed-out-of-order", format!("check_out panicked (changed_file_states must be sorted) on disk {} old {} new {}",
+                        show_disk(&res.pre.disk), show_tree(&res.pre.tree), show_tree(&res.new_tree)));
+                    break;
+                }
+                Err(e) => { ofail(out, &format!("checkout:{e}"), format!("check_out failed: {e}; disk {} old {} new {}", show_disk(&res.pre.disk), show_tree(&res.pre.tree), show_tree(&res.new_tree))); break; }
             };
             let has_swap = res.pre.tree.keys().any(|a| res.new_tree.keys().any(|b| is_strict_prefix(a, b) || is_strict_prefix(b, a)));
             if has_swap { out.tally("shape", "file<->dir"); }
@@ -70,27 +75,32 @@ pub fn run(cfg: &Cfg, out: &mut Out) {
             if in_sync {
                 let want = with_parent_dirs(&want_leaves);
                 if *disk != want {
-                    out.oracle_fail("checkout:disk-differs-from-tree", format!("after check_out of {} (sparse {}) from {} the disk is {} instead of {}",
+                    ofail(out, "checkout:disk-differs-from-tree", format!("after check_out of {} (sparse {}) from {} the disk is {} instead of {}",
                         show_tree(&res.new_tree), show_seq(&sparse), show_tree(&res.pre.tree), show_disk(disk), show_disk(&want)));
                 } else if stats.skipped_files != 0 {
-                    out.oracle_fail("checkout:skipped-without-obstacle", format!("{} paths skipped although nothing untracked was on disk", stats.skipped_files));
+                    ofail(out, "checkout:skipped-without-obstacle", format!("{} paths skipped although nothing untracked was on disk", stats.skipped_files));
                 } else { out.oracle_ok(); }
             } else if stats.skipped_files == 0 {
                 // nothing was in the way: every tree path within the patterns is on disk as written
                 let wrong: Vec<String> = want_leaves.iter().filter(|(q, e)| disk.get(*q) != Some(*e)).map(|(q, _)| show_p(q)).collect();
                 if wrong.is_empty() { out.oracle_ok(); } else {
-                    out.oracle_fail("checkout:disk-differs-from-tree", format!("after check_out of {} (sparse {}) with no skipped path, {} differ on disk {}",
+                    ofail(out, "checkout:disk-differs-from-tree", format!("after check_out of {} (sparse {}) with no skipped path, {} differ on disk {}",
                         show_tree(&res.new_tree), show_seq(&sparse), wrong.join(","), show_disk(disk)));
                 }
             }
-            // (b) an immediate snapshot returns the identical tree (when no path was skipped)
+            // (b) an immediate snapshot returns the identical tree (when no path was skipped).
+            //     With untracked leftovers on disk (formerly ignored files whose `.gitignore` the
+            //     checkout removed, …) the snapshot may *add* paths; then every path of the
+            //     checked-out tree must still come back unchanged.
             let snap = env.snapshot(out, &[]);
             if stats.skipped_files == 0 {
                 match &snap.tree {
                     Some(t) if t.tree_ids() == tree.tree_ids() => out.oracle_ok(),
-                    Some(t) => out.oracle_fail("checkout:snapshot-after-checkout-differs", format!("checked out {} (sparse {}) onto disk {}, snapshot gives {}",
+                    Some(t) if !in_sync && { let got = read_tree(t); res.new_tree.iter().all(|(q, v)| got.get(q) == Some(v)) } => out.oracle_ok(),
+                    Some(t) => ofail(out, "checkout:snapshot-after-checkout-differs", format!("checked out {} (sparse {}) onto disk {}, snapshot gives {}",
                         show_tree(&res.new_tree), show_seq(&sparse), show_disk(&res.pre.disk), show_tree(&read_tree(t)))),
-                    None => out.oracle_fail("checkout:snapshot-after-checkout-failed", format!("{:?}", snap.result.as_ref().err())),
+                    None if snap.known_enotdir || snap.known_conflict_dir => out.tally("step", "snapshot-known-finding"),
+                    None => ofail(out, "checkout:snapshot-after-checkout-failed", format!("{:?}", snap.result.as_ref().err())),
                 }
             } else { out.tally("step", "checkout-with-skips"); }
             // (c) switching = checking out from scratch (fresh workspace, same patterns)
@@ -101,9 +111,9 @@ pub fn run(cfg: &Cfg, out: &mut Out) {
                 let res2 = fresh.check_out(out, &t2);
                 match &res2.result {
                     Ok((d2, _, _)) if d2 == disk => out.oracle_ok(),
-                    Ok((d2, _, _)) => out.oracle_fail("checkout:switch-differs-from-fresh", format!("switch {} -> {} gives {}, fresh checkout gives {}",
+                    Ok((d2, _, _)) => ofail(out, "checkout:switch-differs-from-fresh", format!("switch {} -> {} gives {}, fresh checkout gives {}",
                         show_tree(&res.pre.tree), show_tree(&res.new_tree), show_disk(disk), show_disk(d2))),
-                    Err(e) => out.oracle_fail(&format!("checkout:{e}"), "fresh checkout failed".into()),
+                    Err(e) => ofail(out, &format!("checkout:{e}"), "fresh checkout failed".into()),
                 }
                 out.tally("step", "fresh-compare");
             }
@@ -129,12 +139,13 @@ pub fn run(cfg: &Cfg, out: &mut Out) {
                 out.tally("policy", &format!("{eol}/{exec}"));
                 match snap {
                     Ok(Ok(t)) if ok && t.tree_ids() == tree.tree_ids() => out.oracle_ok(),
-                    other => out.oracle_fail("checkout:snapshot-after-checkout-differs-under-policy",
+                    other => ofail(out, "checkout:snapshot-after-checkout-differs-under-policy",
                         format!("eol={eol} exec={exec} tree={} checkout_ok={ok} snapshot={:?}", show_tree(&read_tree(&tree)),
                                 other.map(|r| r.map(|t| show_tree(&read_tree(&t))).map_err(|e| e.to_string())))),
                 }
             }
         }
     }
+    for m in PANICS.lock().unwrap().iter() { out.note(format!("panic: {m}")); }
     out.note(format!("{workspaces} temp workspaces × up to 6 checkouts, each followed by a snapshot; every third compared with a fresh-workspace checkout; 4 other EOL/exec policies oracle-only"));
 }
